@@ -350,6 +350,12 @@ func (c *EvalCtx) evalCall(x *SCall) (TV, error) {
 		if v.S != SSlice {
 			return TV{}, fmt.Errorf("strval() needs a byte slice")
 		}
+		if c.depth > 0 {
+			// under a binder: the bare term (no named constant, no side fact mentioning the bound variable)
+			_, h := c.e.scalarHeap(c.st, BVSort(8))
+			f := c.W().Uninterp("str_of_bytes", []Sort{h.S, SLoc, BVSort(64)}, SStr)
+			return TV{Val: Val{app(f, h.T, SBase(v.Val).T, SLen(v.Val).T), SStr}, Ty: types.Typ[types.String]}, nil
+		}
 		return TV{Val: c.e.bytesToString(c.st, v.Val), Ty: types.Typ[types.String]}, nil
 	case "itercount":
 		// number of keys delivered so far by the map iterator of the enclosing range loop
